@@ -87,6 +87,10 @@ func Print(prog *Program) Printed {
 		p.w(r)
 		p.nl()
 	}
+	for _, ib := range prog.Impls {
+		p.impl(ib)
+		p.nl()
+	}
 	for _, t := range prog.Types {
 		p.stmt(t)
 		p.nl()
@@ -135,6 +139,24 @@ func (p *printer) fn(f *Func) {
 	p.w(" ")
 	p.block(f.Body)
 	p.mark(f, st)
+}
+
+func (p *printer) impl(ib *ImplBlock) {
+	st := p.here()
+	p.w("impl " + ib.Template)
+	if ib.Caps != nil {
+		p.w(" with { " + strings.Join(ib.Caps, ", ") + " }")
+	}
+	p.w(" for $" + ib.Singleton + " {")
+	p.indent++
+	for _, m := range ib.Methods {
+		p.nl()
+		p.fn(m)
+	}
+	p.indent--
+	p.nl()
+	p.w("}")
+	p.mark(ib, st)
 }
 
 func (p *printer) block(b *Block) {
